@@ -586,7 +586,7 @@ class RawVoltageBackend(object):
                obs_length=None, 
                num_blocks=None,
                length_mode='obs_length',
-               header_dict={},
+               header_dict=None,
                digitize=True,
                load_template=True,
                verbose=True):
@@ -615,6 +615,10 @@ class RawVoltageBackend(object):
         load_template : bool, optional
             Control whether the internal header template's keys are used.
         """
+        # Work on a copy, so that neither the caller's dictionary nor a shared 
+        # default carries values (e.g. PKTIDX) from one recording to the next
+        header_dict = dict(header_dict) if header_dict is not None else {}
+        
         if length_mode == 'obs_length':
             if obs_length is None:
                 if self.input_num_blocks is not None:
